@@ -1,6 +1,8 @@
 //! C06, layer "stream initialisation": the real `ExchangeWsStream::<BinanceSpotOrderBooksL2Transformer>::
-//! init` (connect, subscribe, validate, fetch snapshot, initialise the sequencer, replay the messages
-//! buffered during subscription validation) against a scripted venue on loopback.
+//! init` and `ExchangeWsStream::<BinanceFuturesUsdOrderBooksL2Transformer>::init` (connect, subscribe,
+//! validate, fetch snapshot, initialise the sequencer, replay the messages buffered during subscription
+//! validation) against a scripted venue on loopback - once per rule set (the URL hook applies to every
+//! Binance server).
 //!
 //! What is enumerated (exhaustively, sequentially, one fresh connection per execution):
 //!   * K atomic book changes with ids 1..K, one depth update per id (U = u = id), delivered over the
@@ -10,7 +12,10 @@
 //! The consumer applies the events the stream yields, in order, exactly like `OrderBookL2Manager`
 //! does (snapshot replaces, update upserts). Oracle (the statement): once the consumer has applied the
 //! snapshot, its book equals the venue's book as of the sequence it reports unless the stream has
-//! yielded a terminal sequence error; and a gap-free in-order delivery never errors.
+//! yielded a terminal sequence error; a gap-free in-order delivery that contains the update covering the
+//! snapshot (spot: first id <= S+1; futures: first id <= S, the update with u = S is the covering one) never
+//! errors; a delivery that starts beyond the covering update (spot: first id > S+1; futures: first id > S)
+//! is a break and must yield the sequence error.
 //!
 //! Needs the hook `--cfg barter_rs_barter_rs_verif` (Binance WebSocket URL override) – the only hook
 //! of this framework.
@@ -23,6 +28,7 @@ use barter_data::{
     event::MarketEvent,
     exchange::binance::{
         book::l2::BinanceOrderBookL2Snapshot,
+        futures::{BinanceFuturesUsd, l2::BinanceFuturesUsdOrderBooksL2Transformer},
         spot::{BinanceSpot, l2::BinanceSpotOrderBooksL2Transformer},
     },
     instrument::InstrumentData,
@@ -79,44 +85,86 @@ fn levels_json(m: &BTreeMap<u32, u32>) -> Vec<Value> {
     m.iter().map(|(p, a)| json!([format!("{p}.00"), format!("{a}.000")])).collect()
 }
 
-fn snapshot_json(s: u64) -> String {
+fn snapshot_json(futures: bool, s: u64) -> String {
     let (b, a) = venue_book(s);
-    json!({"lastUpdateId": s, "bids": levels_json(&b), "asks": levels_json(&a)}).to_string()
+    let mut v = json!({"lastUpdateId": s, "bids": levels_json(&b), "asks": levels_json(&a)});
+    if futures {
+        v["E"] = json!(1_589_436_922_972u64);
+        v["T"] = json!(1_589_436_922_959u64);
+    }
+    v.to_string()
 }
 
-fn update_json(i: u64) -> String {
+fn update_json(futures: bool, i: u64) -> String {
     let (is_bid, p, a) = change(i);
     let lvl = json!([[format!("{p}.00"), format!("{a}.000")]]);
     let (b, a_) = if is_bid { (lvl, json!([])) } else { (json!([]), lvl) };
-    json!({"e": "depthUpdate", "E": 1_671_656_397_761u64 + i, "s": "BTCUSDT", "U": i, "u": i, "b": b, "a": a_}).to_string()
+    let mut v = json!({"e": "depthUpdate", "E": 1_671_656_397_761u64 + i, "s": "BTCUSDT", "U": i, "u": i, "b": b, "a": a_});
+    if futures {
+        v["T"] = json!(1_671_656_397_760u64 + i);
+        v["pu"] = json!(i - 1);
+    }
+    v.to_string()
 }
 
 static SNAPSHOT: Mutex<Option<String>> = Mutex::new(None);
 
 struct ScriptFetcher;
 
-impl SnapshotFetcher<BinanceSpot, OrderBooksL2> for ScriptFetcher {
-    fn fetch_snapshots<Instrument>(
-        subscriptions: &[Subscription<BinanceSpot, Instrument, OrderBooksL2>],
-    ) -> impl Future<Output = Result<Vec<MarketEvent<Instrument::Key, OrderBookEvent>>, SocketError>> + Send
-    where
-        Instrument: InstrumentData,
-        Subscription<BinanceSpot, Instrument, OrderBooksL2>: barter_data::Identifier<barter_data::exchange::binance::market::BinanceMarket>,
-    {
-        let text = SNAPSHOT.lock().unwrap().clone().expect("snapshot script set");
-        let events = subscriptions
-            .iter()
-            .map(|sub| {
-                let snap: BinanceOrderBookL2Snapshot = serde_json::from_str(&text).expect("snapshot json");
-                MarketEvent::from((ExchangeId::BinanceSpot, sub.instrument.key().clone(), snap))
-            })
-            .collect::<Vec<_>>();
-        std::future::ready(Ok(events))
-    }
+macro_rules! script_fetcher {
+    ($Exchange:ty, $id:expr) => {
+        impl SnapshotFetcher<$Exchange, OrderBooksL2> for ScriptFetcher {
+            fn fetch_snapshots<Instrument>(
+                subscriptions: &[Subscription<$Exchange, Instrument, OrderBooksL2>],
+            ) -> impl Future<Output = Result<Vec<MarketEvent<Instrument::Key, OrderBookEvent>>, SocketError>> + Send
+            where
+                Instrument: InstrumentData,
+                Subscription<$Exchange, Instrument, OrderBooksL2>: barter_data::Identifier<barter_data::exchange::binance::market::BinanceMarket>,
+            {
+                let text = SNAPSHOT.lock().unwrap().clone().expect("snapshot script set");
+                let events = subscriptions
+                    .iter()
+                    .map(|sub| {
+                        let snap: BinanceOrderBookL2Snapshot = serde_json::from_str(&text).expect("snapshot json");
+                        MarketEvent::from(($id, sub.instrument.key().clone(), snap))
+                    })
+                    .collect::<Vec<_>>();
+                std::future::ready(Ok(events))
+            }
+        }
+    };
+}
+script_fetcher!(BinanceSpot, ExchangeId::BinanceSpot);
+script_fetcher!(BinanceFuturesUsd, ExchangeId::BinanceFuturesUsd);
+
+/// The consumer side of one execution: the real `init` for one rule set, then every item the stream yields.
+macro_rules! client_events {
+    ($Exchange:ty, $Transformer:ident, $kind:expr) => {
+        async {
+            let subs = vec![Subscription::new(<$Exchange>::default(), MarketDataInstrument::from(("btc", "usdt", $kind)), OrderBooksL2)];
+            let mut stream = tokio::time::timeout(
+                Duration::from_secs(20),
+                <ExchangeWsStream<$Transformer<MarketDataInstrument>> as MarketStream<$Exchange, MarketDataInstrument, OrderBooksL2>>::init::<ScriptFetcher>(&subs),
+            )
+            .await
+            .map_err(|_| "init timed out".to_string())?
+            .map_err(|e| format!("init failed (is the harness built with --cfg barter_rs_barter_rs_verif?): {e}"))?;
+            let mut events: Vec<Result<MarketEvent<MarketDataInstrument, OrderBookEvent>, DataError>> = Vec::new();
+            loop {
+                match tokio::time::timeout(Duration::from_secs(10), stream.next()).await {
+                    Ok(Some(item)) => events.push(item),
+                    Ok(None) => break,
+                    Err(_) => return Err("stream neither yielded nor ended within 10 s".to_string()),
+                }
+            }
+            Ok::<_, String>(events)
+        }
+    };
 }
 
 #[derive(Debug, Clone)]
 struct Script {
+    futures: bool,
     first: u64,
     pre: u64,
     snapshot: u64,
@@ -154,9 +202,9 @@ pub fn run(ctx: &Ctx) -> Result<InitStats, String> {
     // updates before the confirmation; the subscriber drops those, the sequencer then reports the gap,
     // and the layer flagged a "spurious error" - a false alarm caused by an unrealistic venue script,
     // corrected here.)
-    let scripts: Vec<Script> = [1u64, 2u64]
+    let scripts: Vec<Script> = [false, true]
         .into_iter()
-        .flat_map(|first| (0..=K).map(move |snapshot| Script { first, pre: 0, snapshot }))
+        .flat_map(|futures| [1u64, 2u64].into_iter().flat_map(move |first| (0..=K).map(move |snapshot| Script { futures, first, pre: 0, snapshot })))
         .collect();
 
     let result: Result<(), String> = rt.block_on(async {
@@ -166,7 +214,8 @@ pub fn run(ctx: &Ctx) -> Result<InitStats, String> {
         unsafe { std::env::set_var("BARTER_VERIF_BINANCE_WS_URL", format!("ws://127.0.0.1:{port}")) };
 
         for sc in &scripts {
-            *SNAPSHOT.lock().unwrap() = Some(snapshot_json(sc.snapshot));
+            *SNAPSHOT.lock().unwrap() = Some(snapshot_json(sc.futures, sc.snapshot));
+            let r = if sc.futures { "futures" } else { "spot" };
             let sc_server = sc.clone();
             // scripted venue for this one connection
             let server = async {
@@ -182,12 +231,12 @@ pub fn run(ctx: &Ctx) -> Result<InitStats, String> {
                 let last = K;
                 let mut id = sc_server.first;
                 for _ in 0..sc_server.pre {
-                    ws.send(send(update_json(id))).await.map_err(|e| e.to_string())?;
+                    ws.send(send(update_json(sc_server.futures, id))).await.map_err(|e| e.to_string())?;
                     id += 1;
                 }
                 ws.send(send(r#"{"result":null,"id":1}"#.to_string())).await.map_err(|e| e.to_string())?;
                 while id <= last {
-                    ws.send(send(update_json(id))).await.map_err(|e| e.to_string())?;
+                    ws.send(send(update_json(sc_server.futures, id))).await.map_err(|e| e.to_string())?;
                     id += 1;
                 }
                 let _ = ws.close(None).await;
@@ -196,27 +245,11 @@ pub fn run(ctx: &Ctx) -> Result<InitStats, String> {
                 Ok::<(), String>(())
             };
             let client = async {
-                let subs = vec![Subscription::new(
-                    BinanceSpot::default(),
-                    MarketDataInstrument::from(("btc", "usdt", MarketDataInstrumentKind::Spot)),
-                    OrderBooksL2,
-                )];
-                let mut stream = tokio::time::timeout(
-                    Duration::from_secs(20),
-                    <ExchangeWsStream<BinanceSpotOrderBooksL2Transformer<MarketDataInstrument>> as MarketStream<BinanceSpot, MarketDataInstrument, OrderBooksL2>>::init::<ScriptFetcher>(&subs),
-                )
-                .await
-                .map_err(|_| "init timed out".to_string())?
-                .map_err(|e| format!("init failed (is the harness built with --cfg barter_rs_barter_rs_verif?): {e}"))?;
-                let mut events = Vec::new();
-                loop {
-                    match tokio::time::timeout(Duration::from_secs(10), stream.next()).await {
-                        Ok(Some(item)) => events.push(item),
-                        Ok(None) => break,
-                        Err(_) => return Err("stream neither yielded nor ended within 10 s".to_string()),
-                    }
+                if sc.futures {
+                    client_events!(BinanceFuturesUsd, BinanceFuturesUsdOrderBooksL2Transformer, MarketDataInstrumentKind::Perpetual).await
+                } else {
+                    client_events!(BinanceSpot, BinanceSpotOrderBooksL2Transformer, MarketDataInstrumentKind::Spot).await
                 }
-                Ok::<_, String>(events)
             };
             let (srv, cli) = tokio::join!(server, client);
             srv?;
@@ -229,7 +262,9 @@ pub fn run(ctx: &Ctx) -> Result<InitStats, String> {
             let mut have_snapshot = false;
             let mut told_invalid = false;
             let mut trace = Vec::new();
-            let case = json!({"engine": "c06-init", "first_update_id": sc.first, "updates_before_subscription_confirmed": sc.pre, "snapshot_last_update_id": sc.snapshot, "updates": K});
+            // does the delivery first..=K contain the update that covers the snapshot (or nothing newer at all)?
+            let covering_delivered = if sc.futures { sc.first <= sc.snapshot } else { sc.first <= sc.snapshot + 1 };
+            let case = json!({"engine": "c06-init", "rules": r, "first_update_id": sc.first, "updates_before_subscription_confirmed": sc.pre, "snapshot_last_update_id": sc.snapshot, "updates": K});
             for ev in events {
                 match ev {
                     Ok(ev) => {
@@ -250,7 +285,7 @@ pub fn run(ctx: &Ctx) -> Result<InitStats, String> {
                                     "after-snapshot"
                                 };
                                 ctx.violate(
-                                    format!("C06/spot/init/book-differs-from-venue-book-at-reported-sequence/{order}"),
+                                    format!("C06/{r}/init/book-differs-from-venue-book-at-reported-sequence/{order}"),
                                     format!(
                                         "script {sc:?}: events {trace:?}; local book at sequence {seq} = {:?}, venue book at {seq} = {:?}",
                                         book_as_maps(&book),
@@ -265,10 +300,10 @@ pub fn run(ctx: &Ctx) -> Result<InitStats, String> {
                     Err(DataError::InvalidSequence { .. }) => {
                         trace.push("E-seq".into());
                         told_invalid = true;
-                        if sc.first == 1 {
+                        if covering_delivered {
                             ctx.violate(
-                                "C06/spot/init/in-order-delivery-errors".to_string(),
-                                format!("script {sc:?}: gap-free in-order delivery from id 1 produced a sequence error; events {trace:?}"),
+                                format!("C06/{r}/init/in-order-delivery-errors"),
+                                format!("script {sc:?}: gap-free in-order delivery containing the update that covers the snapshot produced a sequence error; events {trace:?}"),
                                 case.clone(),
                             );
                         }
@@ -280,14 +315,21 @@ pub fn run(ctx: &Ctx) -> Result<InitStats, String> {
                     }
                 }
             }
+            if have_snapshot && !covering_delivered && !told_invalid {
+                ctx.violate(
+                    format!("C06/{r}/init/break-at-chain-start-not-surfaced"),
+                    format!("script {sc:?}: the delivery starts beyond the update that covers the snapshot, yet no sequence error was yielded; events {trace:?}"),
+                    case.clone(),
+                );
+            }
             if !have_snapshot {
                 ctx.violate(
-                    "C06/spot/init/snapshot-never-emitted".to_string(),
+                    format!("C06/{r}/init/snapshot-never-emitted"),
                     format!("script {sc:?}: events {trace:?}"),
                     case.clone(),
                 );
             }
-            outcomes.insert(trace.join(","));
+            outcomes.insert(format!("{r}:{}", trace.join(",")));
             if stats.samples.len() < 4 {
                 stats.samples.push(json!({"script": case, "events": trace}));
             }
@@ -299,9 +341,329 @@ pub fn run(ctx: &Ctx) -> Result<InitStats, String> {
     Ok(stats)
 }
 
-pub fn replay(ctx: &Ctx, _case: &Value) {
-    // the layer is tiny (<= 45 executions): a replay simply re-runs it
-    if let Err(e) = run(ctx) {
+// =================================================================================================
+// Layer "re-initialisation": the real `barter_data::streams::consumer::init_market_stream` (the
+// composition init_reconnecting_stream -> with_reconnect_backoff -> with_termination_on_error(is_terminal)
+// -> with_reconnection_events around `ExchangeWsStream::init`) with the real Binance spot L2
+// transformer, against a scripted venue on loopback.
+//
+// `init_market_stream` takes its snapshot fetcher from the exchange type (`StreamSelector`), and Binance's
+// fetches over REST from a constant URL - unreachable here. So the layer runs it for a harness-defined
+// exchange type `ScriptBinance` whose `Connector` speaks Binance's subscription protocol to the loopback
+// venue, whose `StreamSelector` names a scripted snapshot fetcher, and whose transformer is a newtype that
+// delegates `init` and `transform` to the REAL `BinanceSpotOrderBooksL2Transformer` (sequencers included).
+// Everything between the socket and the consumer is real code; only subscription naming (C13's subject) and
+// the REST fetch are harness code.
+//
+// Script: connection 1: snapshot at id 0, updates 1, 3, 4 (3 leaves a gap), connection held open;
+//         connection 2 (if the stream re-initialises): snapshot at id 2, updates 2, 3, 4 in order.
+// Oracle (statement: "any break surfaces as a terminal sequence error that forces re-initialisation ...
+// the book either equals the exchange's book as of the sequence number it reports or the consumer has been
+// told it is invalid"):
+//   * the gap is followed by a re-initialisation: a second snapshot arrives (how the consumer is told - a
+//     sequence error item, a reconnect notice, or both - is left open); a stream that ends instead, or stays
+//     silent for 30 s although the venue is up, has not re-initialised;
+//   * if a sequence error ITEM is yielded, the NEXT ITEM is the snapshot of the new initialisation (reconnect
+//     notices are skipped): another update or error of the old connection means the error did not end it;
+//   * while not told invalid (no sequence error item / reconnect notice since the last snapshot) the
+//     consumer's book equals the venue's book at the sequence it reports, on both connections;
+//   * the in-order delivery of the second connection never errors.
+// =================================================================================================
+
+use barter_data::{
+    exchange::{Connector, StreamSelector, subscription::ExchangeSub, binance::{spot::l2::BinanceSpotOrderBookL2Update, subscription::BinanceSubResponse}},
+    streams::{consumer::init_market_stream, reconnect::{Event, stream::ReconnectionBackoffPolicy}},
+    subscriber::{WebSocketSubscriber, validator::WebSocketSubValidator},
+    subscription::Map,
+    transformer::ExchangeTransformer,
+};
+use barter_integration::{Transformer, protocol::websocket::WsMessage};
+use std::collections::VecDeque;
+
+#[derive(Copy, Clone, Eq, PartialEq, Ord, PartialOrd, Hash, Debug, Default, serde::Deserialize, serde::Serialize)]
+pub struct ScriptBinance;
+
+pub struct Ch(&'static str);
+impl AsRef<str> for Ch {
+    fn as_ref(&self) -> &str {
+        self.0
+    }
+}
+pub struct Mk(String);
+impl AsRef<str> for Mk {
+    fn as_ref(&self) -> &str {
+        &self.0
+    }
+}
+// the names Binance uses (the real ones are C13's subject): channel "@depth@100ms", market "BTCUSDT"
+impl barter_data::Identifier<Ch> for Subscription<ScriptBinance, MarketDataInstrument, OrderBooksL2> {
+    fn id(&self) -> Ch {
+        Ch("@depth@100ms")
+    }
+}
+impl barter_data::Identifier<Mk> for Subscription<ScriptBinance, MarketDataInstrument, OrderBooksL2> {
+    fn id(&self) -> Mk {
+        Mk(format!("{}{}", self.instrument.base, self.instrument.quote).to_uppercase())
+    }
+}
+
+impl Connector for ScriptBinance {
+    const ID: ExchangeId = ExchangeId::BinanceSpot;
+    type Channel = Ch;
+    type Market = Mk;
+    type Subscriber = WebSocketSubscriber;
+    type SubValidator = WebSocketSubValidator;
+    type SubResponse = BinanceSubResponse;
+
+    fn url() -> Result<url::Url, SocketError> {
+        let url = std::env::var("BARTER_VERIF_BINANCE_WS_URL").expect("harness: loopback url set");
+        url::Url::parse(&url).map_err(SocketError::UrlParse)
+    }
+    fn requests(exchange_subs: Vec<ExchangeSub<Ch, Mk>>) -> Vec<WsMessage> {
+        let streams: Vec<String> = exchange_subs.into_iter().map(|sub| format!("{}{}", sub.market.as_ref().to_lowercase(), sub.channel.as_ref())).collect();
+        vec![WsMessage::text(json!({"method": "SUBSCRIBE", "params": streams, "id": 1}).to_string())]
+    }
+    fn expected_responses<InstrumentKey>(_: &Map<InstrumentKey>) -> usize {
+        1
+    }
+    fn subscription_timeout() -> Duration {
+        Duration::from_secs(25) // generous: the box may be heavily loaded
+    }
+}
+
+/// One scripted REST answer per initialisation attempt.
+static SNAPSHOT_QUEUE: Mutex<VecDeque<String>> = Mutex::new(VecDeque::new());
+static SNAPSHOT_FETCHES: std::sync::atomic::AtomicU64 = std::sync::atomic::AtomicU64::new(0);
+
+pub struct QueueFetcher;
+impl SnapshotFetcher<ScriptBinance, OrderBooksL2> for QueueFetcher {
+    fn fetch_snapshots<Instrument>(
+        subscriptions: &[Subscription<ScriptBinance, Instrument, OrderBooksL2>],
+    ) -> impl Future<Output = Result<Vec<MarketEvent<Instrument::Key, OrderBookEvent>>, SocketError>> + Send
+    where
+        Instrument: InstrumentData,
+        Subscription<ScriptBinance, Instrument, OrderBooksL2>: barter_data::Identifier<Mk>,
+    {
+        SNAPSHOT_FETCHES.fetch_add(1, std::sync::atomic::Ordering::SeqCst);
+        // one scripted answer per initialisation attempt; the last one is served again should an attempt have
+        // to be repeated (transient machinery trouble must not starve the stream)
+        let text = {
+            let mut queue = SNAPSHOT_QUEUE.lock().unwrap();
+            if queue.len() > 1 { queue.pop_front() } else { queue.front().cloned() }
+        };
+        let result = match text {
+            None => Err(SocketError::Subscribe("harness: no scripted snapshot left".into())),
+            Some(text) => Ok(subscriptions
+                .iter()
+                .map(|sub| {
+                    let snap: BinanceOrderBookL2Snapshot = serde_json::from_str(&text).expect("snapshot json");
+                    MarketEvent::from((ExchangeId::BinanceSpot, sub.instrument.key().clone(), snap))
+                })
+                .collect::<Vec<_>>()),
+        };
+        std::future::ready(result)
+    }
+}
+
+/// The real Binance spot L2 transformer under the harness exchange type.
+pub struct RealSpotL2<K>(BinanceSpotOrderBooksL2Transformer<K>);
+
+#[async_trait::async_trait]
+impl<K> ExchangeTransformer<ScriptBinance, K, OrderBooksL2> for RealSpotL2<K>
+where
+    K: Clone + PartialEq + Send + Sync,
+{
+    async fn init(
+        instrument_map: Map<K>,
+        initial_snapshots: &[MarketEvent<K, OrderBookEvent>],
+        ws_sink_tx: tokio::sync::mpsc::UnboundedSender<WsMessage>,
+    ) -> Result<Self, DataError> {
+        <BinanceSpotOrderBooksL2Transformer<K> as ExchangeTransformer<BinanceSpot, K, OrderBooksL2>>::init(instrument_map, initial_snapshots, ws_sink_tx).await.map(RealSpotL2)
+    }
+}
+
+impl<K: Clone> Transformer for RealSpotL2<K> {
+    type Error = DataError;
+    type Input = BinanceSpotOrderBookL2Update;
+    type Output = MarketEvent<K, OrderBookEvent>;
+    type OutputIter = Vec<Result<Self::Output, Self::Error>>;
+    fn transform(&mut self, input: Self::Input) -> Self::OutputIter {
+        self.0.transform(input)
+    }
+}
+
+impl StreamSelector<MarketDataInstrument, OrderBooksL2> for ScriptBinance {
+    type SnapFetcher = QueueFetcher;
+    type Stream = ExchangeWsStream<RealSpotL2<MarketDataInstrument>>;
+}
+
+pub struct ReinitStats {
+    pub executions: u64,
+    pub connections: u64,
+    pub snapshot_fetches: u64,
+    pub trace: Vec<String>,
+}
+
+pub fn run_reinit(ctx: &Ctx) -> Result<ReinitStats, String> {
+    let rt = tokio::runtime::Builder::new_current_thread().enable_all().build().map_err(|e| e.to_string())?;
+    rt.block_on(async {
+        let listener = tokio::net::TcpListener::bind("127.0.0.1:0").await.map_err(|e| format!("bind: {e}"))?;
+        let port = listener.local_addr().map_err(|e| e.to_string())?.port();
+        // SAFETY: single writer; no other thread reads the environment at this point.
+        unsafe { std::env::set_var("BARTER_VERIF_BINANCE_WS_URL", format!("ws://127.0.0.1:{port}")) };
+        *SNAPSHOT_QUEUE.lock().unwrap() = VecDeque::from([snapshot_json(false, 0), snapshot_json(false, 2)]);
+        SNAPSHOT_FETCHES.store(0, std::sync::atomic::Ordering::SeqCst);
+        let connections = std::sync::Arc::new(std::sync::atomic::AtomicU64::new(0));
+        let case = json!({"engine": "c06-init", "layer": "re-initialisation", "connection_1": {"snapshot": 0, "updates": [1, 3, 4]}, "connection_2": {"snapshot": 2, "updates": [2, 3, 4]}});
+
+        // scripted venue: serves connection after connection until aborted
+        let conn_count = connections.clone();
+        let server = tokio::spawn(async move {
+            // first connection: the gap; every later connection: the in-order delivery
+            loop {
+                let (stream, _) = listener.accept().await.map_err(|e| format!("accept: {e}"))?;
+                let updates: &[u64] = if conn_count.fetch_add(1, std::sync::atomic::Ordering::SeqCst) == 0 { &[1, 3, 4] } else { &[2, 3, 4] };
+                let mut ws = tokio_tungstenite::accept_async(stream).await.map_err(|e| format!("ws accept: {e}"))?;
+                let req = ws.next().await.ok_or("no subscribe request")?.map_err(|e| format!("ws read: {e}"))?;
+                let req_text = req.into_text().map_err(|e| e.to_string())?.to_string();
+                if !req_text.contains("btcusdt@depth") {
+                    return Err(format!("unexpected subscribe request {req_text}"));
+                }
+                let send = |t: String| tokio_tungstenite::tungstenite::Message::text(t);
+                ws.send(send(r#"{"result":null,"id":1}"#.to_string())).await.map_err(|e| e.to_string())?;
+                for id in updates {
+                    // the peer may already have hung up (that is what a terminal error makes it do)
+                    if ws.send(send(update_json(false, *id))).await.is_err() {
+                        break;
+                    }
+                }
+                // hold the connection open until the peer is gone
+                while let Some(Ok(_)) = ws.next().await {}
+            }
+            #[allow(unreachable_code)]
+            Ok::<(), String>(())
+        });
+
+        let client = async {
+            let subs = vec![Subscription::new(ScriptBinance, MarketDataInstrument::from(("btc", "usdt", MarketDataInstrumentKind::Spot)), OrderBooksL2)];
+            let policy = ReconnectionBackoffPolicy { backoff_ms_initial: 1, backoff_multiplier: 1, backoff_ms_max: 5 };
+            let stream = tokio::time::timeout(Duration::from_secs(20), init_market_stream::<ScriptBinance, MarketDataInstrument, OrderBooksL2>(policy, subs))
+                .await
+                .map_err(|_| "init_market_stream timed out".to_string())?
+                .map_err(|e| format!("init_market_stream failed: {e}"))?;
+            let mut stream = Box::pin(stream);
+            let mut book = OrderBook::default();
+            // told_invalid: the consumer knows its book is invalid (sequence error item or reconnect notice);
+            // awaiting_reinit: a sequence error ITEM was yielded - the next item must come from a new initialisation
+            let (mut snapshots, mut told_invalid, mut awaiting_reinit) = (0u32, false, false);
+            let mut snapshot_of_this_init = false; // reset by a reconnect notice
+            let mut trace: Vec<String> = Vec::new();
+            let sig = |cause: &str| format!("C06/spot/consumer/sequence-error-does-not-force-reinitialisation/{cause}");
+            loop {
+                let next = tokio::time::timeout(Duration::from_secs(30), stream.next()).await;
+                match next {
+                    Err(_) if awaiting_reinit => {
+                        ctx.violate(sig("silent-for-30s"), format!("after the sequence error nothing was yielded for 30 s although the venue accepts connections; items {trace:?}"), case.clone());
+                        break;
+                    }
+                    Err(_) if snapshots == 1 => {
+                        ctx.violate(
+                            "C06/spot/consumer/break-not-surfaced/no-error-and-no-reinitialisation-within-30s".to_string(),
+                            format!("connection 1 delivered a gap, yet neither a sequence error nor a re-initialisation followed within 30 s; items {trace:?}"),
+                            case.clone(),
+                        );
+                        break;
+                    }
+                    Err(_) => return Err(format!("stream silent for 30 s; items {trace:?}")),
+                    Ok(None) if snapshots == 1 => {
+                        ctx.violate(sig("stream-ends"), format!("the stream ended on the break instead of re-initialising; items {trace:?}"), case.clone());
+                        break;
+                    }
+                    Ok(None) => return Err(format!("stream ended unexpectedly; items {trace:?}")),
+                    Ok(Some(Event::Reconnecting(_))) => {
+                        trace.push("reconnecting".into());
+                        told_invalid = true;
+                        snapshot_of_this_init = false;
+                    }
+                    Ok(Some(Event::Item(Ok(ev)))) => {
+                        let is_snapshot = matches!(ev.kind, OrderBookEvent::Snapshot(_));
+                        match &ev.kind {
+                            OrderBookEvent::Snapshot(s) => trace.push(format!("S{}", s.sequence)),
+                            OrderBookEvent::Update(u) => trace.push(format!("U{}", u.sequence)),
+                        }
+                        if awaiting_reinit && !is_snapshot {
+                            ctx.violate(sig("old-connection-continues"), format!("an update of the old connection followed the sequence error; items {trace:?}"), case.clone());
+                            break;
+                        }
+                        if !is_snapshot && !snapshot_of_this_init {
+                            // an update although this initialisation has not delivered its snapshot: the consumer has
+                            // no book to apply it to
+                            ctx.violate("C06/spot/consumer/snapshot-never-emitted".to_string(), format!("an update was yielded before the snapshot of its initialisation; items {trace:?}"), case.clone());
+                            break;
+                        }
+                        if is_snapshot {
+                            snapshots += 1;
+                            snapshot_of_this_init = true;
+                            (told_invalid, awaiting_reinit) = (false, false);
+                        }
+                        book.update(ev.kind.clone());
+                        if snapshots > 0 && !told_invalid {
+                            let seq = book.sequence;
+                            if seq > K || book_as_maps(&book) != venue_as_maps(seq) {
+                                ctx.violate(
+                                    "C06/spot/consumer/book-differs-from-venue-book-at-reported-sequence".to_string(),
+                                    format!("items {trace:?}; local book at sequence {seq} = {:?}, venue book = {:?}", book_as_maps(&book), venue_as_maps(seq.min(K))),
+                                    case.clone(),
+                                );
+                                break;
+                            }
+                        }
+                        if snapshots >= 2 && book.sequence == K {
+                            break; // script complete
+                        }
+                    }
+                    Ok(Some(Event::Item(Err(DataError::InvalidSequence { .. })))) => {
+                        trace.push("E-seq".into());
+                        if awaiting_reinit {
+                            ctx.violate(sig("old-connection-continues"), format!("a second sequence error of the same connection followed the first; items {trace:?}"), case.clone());
+                            break;
+                        }
+                        if snapshots >= 2 {
+                            ctx.violate("C06/spot/consumer/in-order-delivery-errors".to_string(), format!("the in-order delivery of the second connection produced a sequence error; items {trace:?}"), case.clone());
+                            break;
+                        }
+                        (told_invalid, awaiting_reinit) = (true, true);
+                    }
+                    Ok(Some(Event::Item(Err(other)))) => {
+                        trace.push(format!("E-other({})", if other.is_terminal() { "terminal" } else { "non-terminal" }));
+                        if awaiting_reinit {
+                            ctx.violate(sig("old-connection-continues"), format!("an item of the old connection followed the sequence error; items {trace:?}"), case.clone());
+                            break;
+                        }
+                    }
+                }
+                if trace.len() > 50 {
+                    return Err(format!("runaway stream; items {trace:?}"));
+                }
+            }
+            Ok::<_, String>(trace)
+        };
+        let trace = client.await;
+        server.abort();
+        let trace = trace?;
+        Ok(ReinitStats {
+            executions: 1,
+            connections: connections.load(std::sync::atomic::Ordering::SeqCst),
+            snapshot_fetches: SNAPSHOT_FETCHES.load(std::sync::atomic::Ordering::SeqCst),
+            trace,
+        })
+    })
+}
+
+pub fn replay(ctx: &Ctx, case: &Value) {
+    // the layers are tiny: a replay simply re-runs the one the case belongs to
+    let result = if case["layer"] == "re-initialisation" { run_reinit(ctx).map(|_| ()) } else { run(ctx).map(|_| ()) };
+    if let Err(e) = result {
         eprintln!("MACHINERY: {e}");
         std::process::exit(2);
     }
